@@ -343,8 +343,16 @@ func checkQueries(res *fw.Result, r *fw.Rand, qs []urnQuery) {
 			}
 			continue
 		}
-		if len(condsN) == 0 {
-			// not a URN condition even without redaction (e.g. a value the parser reads differently): nothing to demand
+		if q.route == "implicit-literal" {
+			res.Count("query.implicit_literal."+q.key, 1)
+		}
+		if errR == nil {
+			// stated by itself, whatever the text means without the policy: what ParseQuery returns under policy urns
+			// holds no condition on a URN value
+			res.Count("clause.query_no_urn_condition_under_urns", 1)
+		}
+		if len(condsN) == 0 && len(condsR) == 0 {
+			// not a URN condition, with or without redaction (e.g. a value the parser reads as a name): nothing to demand
 			res.Count("query.not_a_urn_condition", 1)
 			continue
 		}
@@ -389,8 +397,12 @@ func checkQueries(res *fw.Result, r *fw.Rand, qs []urnQuery) {
 		for _, c := range condsR {
 			accepted = append(accepted, c.String())
 		}
+		underNone := "<rejected: " + fmt.Sprint(errN) + ">"
+		if errN == nil {
+			underNone = pn.String()
+		}
 		res.Violate("C19|query-accepted|"+got.route+"|"+opClass(got.op)+"-operator",
 			fmt.Sprintf("under redaction policy urns ParseQuery accepts %q as %q: a condition on a URN value", q.text, pr.String()),
-			map[string]any{"query": q.text, "route": got.route, "operator": got.op, "nesting": q.nested, "default_country": string(country), "parsed_under_urns": pr.String(), "urn_conditions": accepted, "parsed_under_none": pn.String()})
+			map[string]any{"query": q.text, "route": got.route, "operator": got.op, "nesting": q.nested, "default_country": string(country), "parsed_under_urns": pr.String(), "urn_conditions": accepted, "parsed_under_none": underNone})
 	}
 }
